@@ -382,3 +382,57 @@ def h_chunked(which: int, n1: int, a: bytes, seg: int, eof: bool):
                 assert count(ev, "F") == 0 and count(ev, "C") == 0
                 assert not stream.closed() and stream.wire() == b""
                 assert not trap.uncaught() and not env.v.exc_contexts
+
+
+# =====================================================================================
+# unit 1 (CrossHair part): request line
+# =====================================================================================
+_TCHAR = "!#$%&'*+-.^_`|~"
+
+
+def _is_tchar(c: str) -> bool:
+    return ("0" <= c <= "9") or ("a" <= c <= "z") or ("A" <= c <= "Z") or (c in _TCHAR)
+
+
+import re as _re  # noqa: E402
+
+# written from RFC 9112 section 3 / RFC 9110 5.6.2 (token), independent of tornado's _ABNF table
+_REF_RL = _re.compile(r"([!#$%&'*+\-.^_`|~0-9A-Za-z]+) ([!-~\x80-\xff]+) (HTTP/1\.[0-9])")
+
+
+def ref_request_line(line: str):
+    """RFC 9112 section 3: method SP request-target SP HTTP-version (HTTP/1.x only). -> tuple or None"""
+    m = _REF_RL.fullmatch(line)
+    if m is None:
+        return None
+    return (m.group(1), m.group(2), m.group(3))
+
+
+def pre_startline(raw: bytes) -> bool:
+    return len(raw) <= P.L and in_shard(len(raw))
+
+
+@harness(
+    pre=pre_startline,
+    quick=dict(L=12, timeout=100, reach_timeout=60),
+    thorough=dict(L=14, timeout=900, reach_timeout=120),
+    nshards=dict(quick=3, thorough=5),
+    reach=["line_accepted", "line_rejected"],
+    units=["httputil.parse_request_start_line", "httputil._ABNF.request_line"],
+    stubs=[FMT, "the line is bytes decoded as latin-1, as _parse_headers produces it"],
+    outside=["lines longer than L (the unbounded regular-language equivalence is C43's Engine-B obligation)"],
+)
+def h_startline(raw: bytes):
+    """parse_request_start_line accepts exactly the RFC 9112 request-lines (HTTP/1.x), returns their three
+    parts unchanged, and signals everything else with HTTPInputError and no other exception."""
+    line = raw.decode("latin-1")
+    want = ref_request_line(line)
+    try:
+        got = tuple(httputil.parse_request_start_line(line))
+    except httputil.HTTPInputError:
+        got = None
+    if want is None:
+        reached("line_rejected")
+    else:
+        reached("line_accepted")
+    assert got == want, "request line %r: strict reader %r, tornado %r" % (line, want, got)
